@@ -15,7 +15,7 @@ for doc in crates.values():
             bodies.setdefault(core._strip(rawp), meta['body'])
 new2old = {v: k for k, v in prog.closure_rename.items()}
 refs = set()
-for fn in sorted(glob.glob(os.path.join(V, 'rules', 'C*.py'))):
+for fn in sorted(glob.glob(os.path.join(V, 'rules', 'C*.py')) + [os.path.join(V, 'rules', 'helpers.py')]):
     s = open(fn).read().replace('\\', '')
     for m in re.finditer(r"([\w:<>' ;]*?)((?:::\{closure[@#][^}]*\})+)", s):
         segs = m.group(2)
